@@ -653,6 +653,64 @@ fn replay_zerorc(_args: &[String]) -> i32 {
     }
 }
 
+/// C09 probe: `dangling` -- a structure-aware corruption named by the property: a string cell of
+/// a user table is replaced by a dangling reference (beyond the pool) or by a reference to an
+/// unused entry.  The package must open, reading must work, and delete / update followed by a
+/// flush must return a value or an error -- not panic.
+fn replay_dangling(_args: &[String]) -> i32 {
+    use msi::{Column, Delete, Insert, Select, Update};
+    use std::io::{Read, Seek, SeekFrom, Write};
+    panic::set_hook(Box::new(|_| {}));
+    let bytes: Vec<u8> = {
+        let mut p = Package::create(PackageType::Installer, Cursor::new(Vec::new())).unwrap();
+        p.create_table("T", vec![Column::build("K").primary_key().int16(), Column::build("S").nullable().string(64)]).unwrap();
+        p.insert_rows(Insert::into("T").row(vec![Value::Int(1), Value::Str("some text".into())])).unwrap();
+        p.into_inner().unwrap().into_inner()
+    };
+    for (what, refnum) in [("a reference beyond the pool", 0x7ff0u16), ("a reference to an unused entry", 0u16)] {
+        for op in ["select", "delete", "update"] {
+            let b0 = bytes.clone();
+            let r = panic::catch_unwind(move || -> Result<String, String> {
+                let mut comp = cfb::CompoundFile::open(Cursor::new(b0)).unwrap();
+                let tname = mangle_table_name("T");
+                let mut data = Vec::new();
+                comp.open_stream(&tname).unwrap().read_to_end(&mut data).unwrap();
+                // one row, column-major: K (2 bytes) then S (2 bytes)
+                let mut rn = refnum;
+                if rn == 0 {
+                    // find an unused pool entry?  none exists in a fresh file: point at the entry of the table
+                    // name instead after making it unused is too invasive -- use "one past the last entry"
+                    let pname = mangle_table_name("_StringPool");
+                    let mut pool = Vec::new();
+                    comp.open_stream(&pname).unwrap().read_to_end(&mut pool).unwrap();
+                    rn = ((pool.len() - 4) / 4 + 1) as u16;
+                }
+                data[2] = (rn & 0xff) as u8;
+                data[3] = (rn >> 8) as u8;
+                let mut st = comp.open_stream(&tname).unwrap();
+                st.seek(SeekFrom::Start(0)).unwrap();
+                st.write_all(&data).unwrap();
+                st.flush().unwrap();
+                drop(st);
+                comp.flush().unwrap();
+                let patched = comp.into_inner().into_inner();
+                let mut p = Package::open(Cursor::new(patched)).map_err(|e| format!("open: {e}"))?;
+                match op {
+                    "select" => { let n = p.select_rows(Select::table("T")).map_err(|e| format!("select: {e}"))?.count(); Ok(format!("{n} rows")) }
+                    "delete" => { p.delete_rows(Delete::from("T")).map_err(|e| format!("delete: {e}"))?; p.flush().map_err(|e| format!("flush: {e}"))?; Ok("deleted".into()) }
+                    _ => { p.update_rows(Update::table("T").set("S", Value::Str("new".into()))).map_err(|e| format!("update: {e}"))?; p.flush().map_err(|e| format!("flush: {e}"))?; Ok("updated".into()) }
+                }
+            });
+            if r.is_err() {
+                println!("REPLAY family=dangling corruption=\"string cell replaced by {what}\" operation={op} verdict=VIOLATED (PANIC)");
+                return 1;
+            }
+        }
+    }
+    println!("REPLAY family=dangling verdict=ok (select / delete / update on a dangling string cell: values or errors, no panic)");
+    0
+}
+
 fn main() {
     let args: Vec<String> = std::env::args().skip(1).collect();
     if args.is_empty() {
@@ -672,6 +730,7 @@ fn main() {
         "faults" => replay_faults(&args[1..]),
         "bom" => replay_bom(&args[1..]),
         "zerorc" => replay_zerorc(&args[1..]),
+        "dangling" => replay_dangling(&args[1..]),
         _ => 2,
     };
     std::process::exit(rc);
